@@ -598,9 +598,13 @@ def run_net(rec):
                     u = u[0] if rec["shared"] == "first" else u[1]
                 nn = _set_linear_ints(u.init_params(), rec["layers"])
             else:
-                eqp.update(k3=jnp.array(float(rec["hth"][0])), k4=jnp.array(float(rec["hth"][1])))
+                # the designated parameters are consumed in the order of the hyperparams LIST (rec.hth follows that order),
+                # whatever the order of the keys in the eq_params dictionary
+                hp = ["k3", "k4"] if rec.get("hporder", "k3k4") == "k3k4" else ["k4", "k3"]
+                vals = {hp[0]: jnp.array(float(rec["hth"][0])), hp[1]: jnp.array(float(rec["hth"][1]))}
+                eqp.update({k: vals[k] for k in sorted(vals)})      # dictionary order k3, k4 - independent of the list order
                 P = len(rec["hyper"][0]["b"])
-                u = jinns.utils.create_HYPERPINN(jax.random.PRNGKey(0), eqx_list, rec["eq_type"], ["k3", "k4"], 2, dim_x, input_transform=it,
+                u = jinns.utils.create_HYPERPINN(jax.random.PRNGKey(0), eqx_list, rec["eq_type"], hp, 2, dim_x, input_transform=it,
                                                  output_transform=ot, shared_pinn_outputs=shared, eqx_list_hyper=((eqx.nn.Linear, 2, P),))
                 if shared is not None:
                     u = u[0]
